@@ -34,6 +34,7 @@ type Case struct {
 	Then  []EP   `json:"then,omitempty"`       // a second exchange of the same client after the endpoints changed to these behaviours
 	Names string `json:"names,omitempty"`      // the kdc lines name hosts instead of addresses: "single" = each name has one address, "multi" = two dead addresses in front of the real one
 	List  []int  `json:"kdc_lines,omitempty"`  // the realm's kdc lines in order, as indices into kdcs (a host may be listed more than once); empty = each once
+	Try   int    `json:"try,omitempty"`        // n-th try of the same assignment (the library shuffles the KDC list)
 }
 
 var udpBeh = []kdc.Behaviour{kdc.Answers, kdc.Refuses, kdc.ClosesEarly, kdc.Silent, kdc.AnswersErr, kdc.TooBig}
@@ -452,6 +453,24 @@ func TestProp(t *testing.T) {
 	for ci, code := range plainCodes { // and every code at least once on the simplest assignment, per transport order
 		jobs = append(jobs, Case{EPs: []EP{{kdc.AnswersErr, kdc.AnswersErr}}, Limit: limits[ci%3], Code: code})
 	}
+	// every code once more from one of two KDCs while the other is unreachable, both list orders, a few tries each (the
+	// library shuffles the list): whichever KDC is asked first, the error is an answer and has to be surfaced
+	codek := 0
+	for _, code := range plainCodes {
+		for _, other := range []EP{{kdc.Refuses, kdc.Refuses}, {kdc.ClosesEarly, kdc.ClosesEarly}} {
+			codek++
+			if r.Quick() && (codek+int(r.Seed()))%2 != 0 {
+				continue
+			}
+			for try := 0; try < 3; try++ {
+				eps := []EP{{kdc.AnswersErr, kdc.AnswersErr}, other}
+				if try%2 == 1 {
+					eps[0], eps[1] = eps[1], eps[0]
+				}
+				add(Case{EPs: eps, Limit: limits[(codek+try)%3], Code: code, Try: try})
+			}
+		}
+	}
 	// two exchanges of one client with the endpoints changing in between: what the first exchange went through must not
 	// decide what the second one may use
 	phase := []EP{{kdc.Answers, kdc.Answers}, {kdc.TooBig, kdc.Answers}, {kdc.Refuses, kdc.Answers}, {kdc.Answers, kdc.Refuses}, {kdc.ClosesEarly, kdc.Answers}, {kdc.AnswersErr, kdc.Answers}, {kdc.Answers, kdc.CutsBody}}
@@ -499,7 +518,7 @@ func TestProp(t *testing.T) {
 			}
 		}
 	}
-	r.Rule("enum (continued): TCP endpoints also cut the reply inside its body or inside its length header; the KRB-ERROR code runs through every code 1..93 except 24, 25, 52 and 68; kdc lines naming hosts that resolve (through an in-process DNS responder) to one address or to two dead addresses followed by the real one; hosts listed on several kdc lines (a faulty host two to four times around one working host, three tries each because the library shuffles the list); two-exchange cases: one client logs in twice while the endpoints change behaviour in between (7 x 7 single-KDC phases x 3 limits, and a slice with the working KDC moving from the first to the second host)")
+	r.Rule("enum (continued): TCP endpoints also cut the reply inside its body or inside its length header; the KRB-ERROR code runs through every code 1..93 except 24, 25, 52 and 68, on a single KDC and again on one of two KDCs while the other refuses or closes early (both list orders, three tries); kdc lines naming hosts that resolve (through an in-process DNS responder) to one address or to two dead addresses followed by the real one; hosts listed on several kdc lines (a faulty host two to four times around one working host, three tries each because the library shuffles the list); two-exchange cases: one client logs in twice while the endpoints change behaviour in between (7 x 7 single-KDC phases x 3 limits, and a slice with the working KDC moving from the first to the second host)")
 	var mu sync.Mutex
 	var retry []Case
 	seenKey := map[string]bool{}
